@@ -80,6 +80,14 @@ class C10(Prop):
                     v[1] = {"l": list(xs)} if v[0] == "x" else {"l": [rng.randint(0, 1) for _ in xs]}
             c.update(mode="zip", runner=runner, mapErr="continue")
             yield c
+        # whatever the seed: the wrapper renames its (selected) data output to the name of an inner signal the selection hides: still a data
+        # output, one list entry per item
+        for runner in ("sync", "async"):
+            inner = {"name": "g0", "nodes": [gen._fn_node("a", [["x", None]], ["r"], {"b": "tag", "t": "a"}, emits=["done"])], "bound": [], "selected": ["r"]}
+            gn = {"name": "mapper", "kind": "graph", "inner": 0, "inRen": [], "outRen": [["r", "done"]], "mapOver": ["x"], "mapMode": "zip", "errMode": "raise"}
+            outer = {"name": "g1", "nodes": [gn], "bound": []}
+            yield {"kind": "node", "program": [inner, outer], "values": [["x", {"l": [rng.randint(0, 4) for _ in range(rng.randint(2, 3))]}]], "cfg": {},
+                   "runner": runner, "k": None, "seed": rng.randint(0, 10**6)}
         # whatever the seed: a concurrency limit without a single slot — refused, or else one result per combination all the same
         for _ in range(2):
             c = self._map_case(rng, bounded=True)
@@ -165,10 +173,19 @@ class C10(Prop):
         got = dict((k, v) for k, v in obs["values"])
         ren = dict(node.get("outRen", []))
         inner_outs = [o for n in case["program"][0]["nodes"] for o in n.get("dataOuts", [])]
+        inner_sel = case["program"][0].get("selected")
+        run_sel = case["cfg"].get("select")
+        top_sel = case["program"][-1].get("selected")
         for o in dict.fromkeys(inner_outs):
             name = ren.get(o, o)
             if name not in got:
-                continue   # not selected
+                # not returned: because the inner graph's selection hides it, or the run's own selection leaves it out — never because a DATA
+                # output the wrapper exposes was dropped
+                hidden = inner_sel is not None and o not in inner_sel
+                unselected = (run_sel not in (None, "**") and name not in run_sel) or (run_sel is None and top_sel is not None and name not in top_sel)
+                if not hidden and not unselected:
+                    return f"the mapping node exposes the data output {name!r} (inner {o!r}) but the result does not contain it: {sorted(got)}"
+                continue
             exp = []
             for s in singles:
                 if s["status"] == "failed":
